@@ -18,6 +18,9 @@ pub struct Context<'a, 'b, 'c, 'info, T> { pub accounts: &'b mut T, pub bumps: B
 pub struct Program<'info, T> { pub k: Pubkey, pub p: core::marker::PhantomData<&'info T> }
 pub struct Interface<'info, T> { pub k: Pubkey, pub p: core::marker::PhantomData<&'info T> }
 impl<'info, T> Interface<'info, T> { pub fn key(&self) -> (r: Pubkey) ensures r == self.k { self.k } }
+impl<'info, T> SKey for Interface<'info, T> { open spec fn skey(&self) -> Pubkey { self.k } }
+impl<'info, T> SKey for Program<'info, T> { open spec fn skey(&self) -> Pubkey { self.k } }
+impl<'a> SOwner for InterfaceAccount<'a, Mint> { open spec fn sowner(&self) -> Pubkey { self.data.owner_program } }
 pub struct Sysvar<'info, T> { pub p: core::marker::PhantomData<&'info T> }
 pub struct TokenInterface {}
 pub struct System {}
@@ -31,6 +34,7 @@ pub fn initialize_vault_token_account<'info>(whirlpool: &Account<'info, Whirlpoo
 #[verifier::external_body]
 pub fn emit_pool_initialized(e: PoolInitialized) { unimplemented!() }
 //@ struct instructions/v2/initialize_pool.rs InitializePoolV2
+//@ constraints instructions/v2/initialize_pool.rs InitializePoolV2
 /// C19: success implies both mints are admitted with the badge issued by THIS config for THAT mint, the mints are ordered and distinct, the price is within the
 /// protocol bounds, the pool carries the fee tier's default rate (<= 6%) and the config's protocol rate (<= 25%), the given spacing, the two vault accounts, and starts empty
 //@ fn instructions/v2/initialize_pool.rs handler -> r as=initialize_pool_v2_handler canary
@@ -55,6 +59,7 @@ pub struct Token {}
 pub struct WhirlpoolBumps { pub whirlpool: u8 }
 impl<'info, T> Program<'info, T> { pub fn key(&self) -> (r: Pubkey) ensures r == self.k { self.k } }
 //@ struct instructions/initialize_pool.rs InitializePool
+//@ constraints instructions/initialize_pool.rs InitializePool
 //@ fn instructions/initialize_pool.rs handler -> r as=initialize_pool_handler canary
     requires tick_spacing > 0,
     ensures
